@@ -305,6 +305,10 @@ func (s *Server) readMessage() (json.RawMessage, error) {
 		return nil, fmt.Errorf("missing Content-Length header")
 	}
 
+	if contentLength < 0 {
+		return nil, fmt.Errorf("invalid Content-Length: %d", contentLength)
+	}
+
 	// Validate content length against maximum
 	if contentLength > MaxContentLength {
 		return nil, fmt.Errorf("content length %d exceeds maximum allowed %d", contentLength, MaxContentLength)
@@ -358,10 +362,24 @@ func (s *Server) handleMessage(msg json.RawMessage) {
 
 	s.logger.Printf("Received: %s", req.Method)
 
+	// A panic in a handler must not take the whole server down: log it and,
+	// for a request that has not been answered yet, answer with an error so
+	// that every request still gets exactly one response.
+	responded := false
+	defer func() {
+		if r := recover(); r != nil {
+			s.logger.Printf("panic while handling %s: %v", req.Method, r)
+			if req.ID != nil && !responded {
+				s.sendError(req.ID, InternalError, fmt.Sprintf("internal error: %v", r))
+			}
+		}
+	}()
+
 	// Handle the request
 	if req.ID != nil {
 		// It's a request expecting a response
 		result, err := s.handler.HandleRequest(req.Method, req.Params)
+		responded = true
 		if err != nil {
 			s.sendError(req.ID, InternalError, err.Error())
 		} else {
